@@ -40,10 +40,10 @@ def _check(mi, outcome, val, built=None):
 def mutants(site: int, mut: int, rsel: int, tag: str, vsel: int,
             ksel: int) -> bool:
     """
-    pre: 0 <= site < 28 and 0 <= mut < 7 and 0 <= rsel < 90
+    pre: 0 <= site < 28 and 0 <= mut < 8 and 0 <= rsel < 90
     pre: 1 <= len(tag) <= 40 and tag != '!'
     pre: not tag.startswith('tag:yaml.org,2002:')
-    pre: 0 <= vsel < 17 and 0 <= ksel < 14
+    pre: 0 <= vsel < 20 and 0 <= ksel < 15
     post: __return__
     """
     r = explore(slice_no(0), site, mut, rsel, tag, vsel, ksel, LIM, _check)
@@ -53,10 +53,10 @@ def mutants(site: int, mut: int, rsel: int, tag: str, vsel: int,
 def mutants_reach(site: int, mut: int, rsel: int, tag: str, vsel: int,
                   ksel: int) -> bool:
     """
-    pre: 0 <= site < 28 and 0 <= mut < 7 and 0 <= rsel < 90
+    pre: 0 <= site < 28 and 0 <= mut < 8 and 0 <= rsel < 90
     pre: 1 <= len(tag) <= 40 and tag != '!'
     pre: not tag.startswith('tag:yaml.org,2002:')
-    pre: 0 <= vsel < 17 and 0 <= ksel < 14
+    pre: 0 <= vsel < 20 and 0 <= ksel < 15
     post: __return__
     """
     r = explore(slice_no(0), site, mut, rsel, tag, vsel, ksel, LIM, _check)
@@ -68,7 +68,7 @@ def mutants_reach(site: int, mut: int, rsel: int, tag: str, vsel: int,
 
 def empty_stream(which: int) -> bool:
     """
-    pre: 0 <= which < 16
+    pre: 0 <= which < 30
     post: __return__
     """
     for mi in range(len(MODELS)):       # concrete model index per path
@@ -156,7 +156,7 @@ def doubles(m1: int, site: int, mut: int, rsel: int, tag: str, vsel: int,
     pre: 0 <= m1 < 6 and 0 <= site < 28 and 0 <= mut < 6 and 0 <= rsel < 90
     pre: 1 <= len(tag) <= 40 and tag != '!'
     pre: not tag.startswith('tag:yaml.org,2002:')
-    pre: 0 <= vsel < 17 and 0 <= ksel < 14
+    pre: 0 <= vsel < 20 and 0 <= ksel < 15
     post: __return__
     """
     r = pipeline.explore2(slice_no(0), m1, site, mut, rsel, tag, vsel, ksel,
@@ -172,8 +172,8 @@ CONDITIONS = [
               'entry / set one of 3 values / retag str or int; second '
               'mutation = any single-point mutation of the quick palettes at '
               'any other site'},
-    {'fn': 'mutants', 'slices': pipeline.ALL_SLICES,
-     'quick_slices': pipeline.QUICK_SLICES, 'quick': 110, 'thorough': 300,
+    {'fn': 'mutants', 'slices': pipeline.ALL_SLICES_A,
+     'quick_slices': pipeline.QUICK_SLICES_A, 'quick': 110, 'thorough': 300,
      'bound': pipeline.MUTANT_BOUND},
     {'fn': 'mutants_reach',
      'slices': [pipeline.slice_for('plain', 0, 2)],
